@@ -9,7 +9,7 @@ Spec:   WbemUri.tla   symbol-level transcription of to_wbem_uri (4 formats),
                       accepted, parser total.
         WbemUriMC.tla TLC checks the four laws on the transcription for every
                       path of a structured universe and every single-symbol
-                      mutation of the printed URIs; 10 regression variants
+                      mutation of the printed URIs; 12 regression variants
                       (5 of them are behaviours of the pinned tree) must fail.
         WbemUriHeap.tla  the laws in a HISTORY of calls: Parse(text) returns
                       a fresh value that depends only on the text, Mutate of a
@@ -59,6 +59,11 @@ REGRESSION = [
      "canonical keeps the case of a host that is an IP literal [..]"),
     ("WbemUriMCExpSign.cfg", {"PrintedAccepted", "RoundTrip"},
      "REAL_VALUE exponent sign 'E-?': the e+NN that repr() prints rejected"),
+    ("WbemUriMCHostHyphen.cfg", {"PrintedAccepted"},
+     "authority pattern without '-': host 'my-host' printed, not accepted"),
+    ("WbemUriMCDtPre.cfg", {"RoundTrip"},
+     "all-digits pre-check before CIMDateTime(): reduced precision datetime "
+     "keys (asterisks) come back as strings"),
 ]
 
 
@@ -67,6 +72,8 @@ def traits(p, fmt, out=None):
     out = set() if out is None else out
     if p["hashost"] and not p["hasns"] and fmt == "historical":
         out.add("host-without-namespace")
+    if p["hashost"] and "mi" in p["host"] and fmt != "cimobject":
+        out.add("host-with-hyphen")
     for b in p["kb"]:
         v = b["v"]
         if v["t"] in ("string", "char16"):
@@ -81,6 +88,9 @@ def traits(p, fmt, out=None):
                 out.add("real-exponent-without-dot")
             elif "ex" in v["s"]:
                 out.add("real-fraction-exponent-plus")
+        elif v["t"] == "datetime":
+            if v["s"] in (["DTs"], ["DIs"]):
+                out.add("datetime-reduced-precision")
         elif v["t"] == "reference":
             traits(v["r"][0], fmt, out)
     return out
@@ -115,7 +125,9 @@ HIST_REGRESSION = [
      "shared object for equal text): after the caller modified the reference "
      "of an earlier result, a later from_wbem_uri returns the modified end "
      "point"),
-    ("WbemUriHistCacheAll.cfg", {"HistIndependent"},
+    # (both invariants are violated by this design; which one the 16 workers
+    # report first is not deterministic)
+    ("WbemUriHistCacheAll.cfg", {"HistIndependent", "HistRoundTrip"},
      "from_wbem_uri results cached by text: modifying one result changes "
      "another one"),
 ]
@@ -500,8 +512,10 @@ def run(ctx):
     ctx.assumptions += [
         "one symbol = one character class; letters are ASCII (two bases x "
         "two cases, concrete letters chosen per vector), digits are decimal "
-        "anchors of the intN ranges, one datetime literal, exponent suffixes "
-        "e+20 / e-07, one hex letter (a c d f) in IP literal hosts; '+', hex/binary/octal literals, non-ASCII names and "
+        "anchors of the intN ranges, exponent suffixes "
+        "e+20 / e-07, datetime literals of 4 classes (timestamp / interval x "
+        "full / reduced precision with asterisks, a member chosen per "
+        "vector), one hex letter (a c d f) in IP literal hosts; '+', hex/binary/octal literals, non-ASCII names and "
         "typed URIs are reached only by the seeded raw-text parser vectors",
         "instance paths without keybindings are excluded (DSP0004 forbids "
         "them, to_wbem_uri warns and prints a class path)",
